@@ -327,3 +327,51 @@ impl From<&KademliaPeer> for schema::kademlia::Peer {
         }
     }
 }
+
+// Verification hooks (runtime-monitoring harness only).
+#[cfg(feature = "verif")]
+impl<T: Clone> Key<T> {
+    /// Build a key with chosen raw bytes (no hashing of the preimage).
+    pub fn verif_from_bytes(bytes: [u8; 32], preimage: T) -> Key<T> {
+        Key {
+            preimage,
+            bytes: KeyBytes(Array::from(bytes)),
+        }
+    }
+
+    /// Raw bytes of the key.
+    pub fn verif_bytes(&self) -> [u8; 32] {
+        let mut out = [0u8; 32];
+        out.copy_from_slice(self.bytes.0.as_slice());
+        out
+    }
+}
+
+#[cfg(feature = "verif")]
+impl KademliaPeer {
+    /// Peer ID.
+    pub fn verif_peer(&self) -> PeerId {
+        self.peer
+    }
+
+    /// Raw key bytes.
+    pub fn verif_key_bytes(&self) -> [u8; 32] {
+        self.key.verif_bytes()
+    }
+
+    /// Connection type.
+    pub fn verif_connection(&self) -> ConnectionType {
+        self.connection
+    }
+
+    /// Does the peer have at least one known address?
+    pub fn verif_has_addresses(&self) -> bool {
+        !self.address_store.is_empty()
+    }
+
+    /// Replace the key of the peer (crafted-key workloads).
+    pub fn verif_with_key(mut self, key: Key<PeerId>) -> Self {
+        self.key = key;
+        self
+    }
+}
